@@ -4,4 +4,4 @@ go 1.22
 
 require github.com/avfs/avfs v0.0.0
 
-replace github.com/avfs/avfs => /repo
+replace github.com/avfs/avfs => /tmp/rw-fileio
